@@ -571,8 +571,17 @@ func (tree *Rtree) nearestNeighbors(k int, p geom.Point, n *node,
 		}
 	} else {
 		branches, branchDists := sortEntries(p, n.entries)
-		branches = pruneEntries(p, branches, branchDists)
+		if k == 1 {
+			// The MINMAXDIST bound only guarantees one object per branch,
+			// so it can only be used when looking for a single neighbor.
+			branches = pruneEntries(p, branches, branchDists)
+		}
 		for _, e := range branches {
+			// A branch can be skipped if nothing in it can be closer than
+			// the k-th nearest object found so far.
+			if k > 0 && math.Sqrt(minDist(p, e.bb)) > dists[k-1] {
+				continue
+			}
 			nearest, dists = tree.nearestNeighbors(k, p, e.child, dists, nearest)
 		}
 	}
